@@ -380,16 +380,15 @@ def keys_rules(ctx):
     # CLI choices are the tables' own keys
     R.rule("C15-D3d CLI choices", 5, "every choices= list is the key set of the table that is indexed")
     aa = repo.func(KEYS, "add_arguments")
-    for n in walk_no_nested(aa.node):
-        if isinstance(n, ast.Call) and n.args and isinstance(n.args[0], ast.Constant) and str(n.args[0].value).startswith("--"):
-            for k in n.keywords:
-                if k.arg == "choices":
-                    opt = n.args[0].value
-                    txt = ast.unparse(k.value)
-                    tbl = {"--type": "supported_key_types", "--encoding": "supported_encodings", "--private-format": "supported_private_formats",
-                           "--public-format": "supported_public_formats", "--encryption": "supported_encryptions"}.get(opt)
-                    R.check("C15-D3d CLI choices", tbl is not None and txt == f"KeyGenerator.{tbl}.keys()", opt, mod=aa.module, node=n,
-                            function=ctx.fq(aa), expected=f"KeyGenerator.{tbl}.keys()", found=txt, key_extra=opt)
+    for f_, n, pos_, kws_, _recv in generic.cli_registrations(repo, repo.mod(KEYS)):
+        if pos_ and isinstance(pos_[0], ast.Constant) and str(pos_[0].value).startswith("--") and "choices" in kws_:
+            opt = pos_[0].value
+            txt = ast.unparse(kws_["choices"])
+            tbl = {"--type": "supported_key_types", "--encoding": "supported_encodings", "--private-format": "supported_private_formats",
+                   "--public-format": "supported_public_formats", "--encryption": "supported_encryptions"}.get(opt)
+            R.check("C15-D3d CLI choices", tbl is not None and txt in (f"KeyGenerator.{tbl}.keys()", f"KeyGenerator.{tbl}", f"list(KeyGenerator.{tbl})",
+                                                                       f"list(KeyGenerator.{tbl}.keys())", f"tuple(KeyGenerator.{tbl})"),
+                    opt, mod=aa.module, node=n, function=ctx.fq(aa), expected=f"KeyGenerator.{tbl}.keys()", found=txt, key_extra=opt)
     R.rule("C15-D3e CLI plumbing", 6, "main passes each option to the parameter it means")
     m = repo.func(KEYS, "main")
     call = [n for n in ast.walk(m.node) if isinstance(n, ast.Call) and isinstance(n.func, ast.Attribute) and n.func.attr == "create_key_pair"]
